@@ -258,10 +258,63 @@ def rule_recover(ctx):
               "next flush delivers the queued frame")
 
 
+def rule_nonce(ctx):
+    """a send that fails BELOW the cipher: the noise layer's send hands the plaintext to the protocol object, which encrypts
+    it (the cipher's nonce counter advances) and then writes the segment through the layer's stream callback; when that
+    write fails (oversized frame refused by the segment layer, socket error) the error reaches the caller - but the
+    nonce is spent, the peer never sees that frame, and every later frame of this connection is undecryptable for it.
+    The stack is only 'usable afterwards' if the failure also ends the connection (a reconnect starts fresh counters).
+    By abstract execution of send with the protocol's send answering as consonance does (encrypt, then the WRITE event)
+    and the lower layer refusing the segment."""
+    from ..absint import _Raise, C_NONE, flat_effects
+    from . import c04
+    repo = ctx.repo
+    roles = c04.noise_roles(repo)
+    cls = repo.cls(c04.NOISE, c04.CN)
+    fn = repo.method(c04.NOISE, c04.CN, "send")
+    w = where(c04.NOISE, c04.CN + ".send", fn.lineno)
+    if not roles.get("stream_cb") or not roles.get("proto"):
+        ctx.undecided("C12.nonce", w, "send", "the noise layer's parts were not identified")
+        return
+    box = {}
+
+    def proto_send(itp, recv, a, k, env, d, e):
+        if recv[0] == "obj" and recv[1].cls is None and "state" in recv[1].fields:
+            itp.emit("CALL", "cipher.encrypt (nonce consumed)", list(a))
+            itp.method_call(box["layer"], roles["stream_cb"], [c04._const_expr(itp, cls, "BlockingQueueSegmentedStream.EVENT_WRITE")], {}, {"@module": cls.module, "@owner": cls}, d + 1, None)
+            return C_NONE
+        return None
+
+    def lower_refuses(itp, recv, a, k, env, d, e):
+        if recv is box.get("layer") or (recv[0] == "obj" and box.get("layer") is not None and recv[1] is box["layer"][1]):
+            itp.emit("DOWN", a[0] if a else C_NONE, {})
+            raise _Raise(("ext", "ValueError", []), "ValueError: the lower layer refuses the segment")
+        return None
+    it, layer, _c = c04._noise_layer(repo, roles, extra_hooks={"method:send": proto_send})
+    box["layer"] = layer
+    it.hooks["method:toLower"] = lower_refuses
+    raised = None
+    try:
+        it.call_function(fn, cls, layer, [("c", b"stanza bytes")], {}, depth=0)
+    except _Raise as r:
+        raised = r.text
+    effs = list(flat_effects(it.effects))
+    spent = [e for e in effs if e[0] == "CALL" and e[1].startswith("cipher.encrypt")]
+    if not spent or raised is None:
+        ctx.undecided("C12.nonce", w, "a write that fails after the cipher step", "scenario not reached (encrypt calls: %d, raised: %s)" % (len(spent), raised))
+        return
+    closes = [e for e in effs if (e[0] in ("BCAST", "EMIT") and "disconnect" in str(e[1]).lower()) or (e[0] == "CALL" and e[1].split(".")[-1] in ("disconnect", "reset"))]
+    ctx.check("C12.nonce", bool(closes), w, "a write that fails after the cipher step ends the connection",
+              "the error reaches the caller, but the cipher's nonce is spent and the frame never reached the peer: every later send on this connection returns normally, goes out and cannot be decrypted by the peer - only a reconnect heals it, and nothing asks for one",
+              "the connection is torn down (fresh counters on the next one)")
+
+
 def run(ctx):
     ctx.guarded("C12.rel", rule_rel, ctx)
     ctx.guarded("C12.rel", rule_recover, ctx)
     ctx.guarded("C12.drain", rule_drain, ctx)
+    ctx.rule("C12.nonce", "a downward failure below the cipher step does not leave a connection whose counters disagree with the peer's", floor=1)
+    ctx.guarded("C12.nonce", rule_nonce, ctx)
     from .c18 import rule_prim
     ctx.guarded("C12.order", rule_prim, ctx, "C12.order", ("detached",))
     # the codec objects serve every send / receive of the coder layer: a failed encode or decode leaves nothing behind
